@@ -16,7 +16,10 @@ Reading a successor state.  The successor states are given outright as record up
 `objs := w.exec.objs.set o x` replaces object `o`, and
 `threads := w.exec.threads.threads.mapIdx fun i th => …` rewrites thread `i` (`th` is its old
 record): `Table.read` below reads such a table pointwise.  `w.tid` is the active thread,
-`th.operation.any (fun op => op.obj == o)` says "thread `th` has a pending operation on object `o`".
+`th.operation.any (fun op => op.obj == o)` says "thread `th` has a pending operation on object `o`",
+`op.blocking` that this operation WAITS for the object (`lock`, `read`, `write`) as opposed to an attempt
+(`try_lock`, `try_read`, `try_write`): `World.branch obj act blk wt` records `⟨obj, act, wt⟩`
+(`Lock.branch_records`).
 
 Vocabulary (definitions in `LoomVerif/Proofs/C07Rw.lean`, `C07Handover.lean`, `C07SC.lean`,
 `C07RwSC.lean`; each is spelled out by a theorem below):
@@ -35,14 +38,18 @@ Vocabulary (definitions in `LoomVerif/Proofs/C07Rw.lean`, `C07Handover.lean`, `C
 * `MutexRel w s`, `RwRel w s`  the lock components of the `SC` state `s` are these abstractions
                                (readers compared as sets).
 
-FINDINGS recorded here: F9 (`Lock.blocks_try_acquirers`): a thread whose pending operation is a
-`try_lock` is disabled by another thread's acquisition although the reference semantics never
-disables a `try_lock`.  `Lock.release_wakes`: a release wakes (`Thread.wake`) every other thread with a
+REPAIRED finding F9 (old theorem `Lock.blocks_try_acquirers`: a thread whose pending operation is a
+`try_lock` was disabled by another thread's acquisition although the reference semantics never
+disables a `try_lock`).  The pending operation now records whether it waits (`Operation.blocking`), and an
+acquisition blocks only the OTHER threads that wait for the lock: `Lock.never_blocks_try_acquirers`,
+`Lock.blocks_waiters`, `Lock.branch_records`, `Lock.try_acquirer_keeps_running` (kernel-checked example).
+`Lock.release_wakes`: a release wakes (`Thread.wake`) every other thread with a
 pending operation on the lock: a BLOCKED one becomes `runnable`, any other state is left alone (since
 the repair of finding F18; before it every such thread was set runnable whatever its state), and nobody's
 unpark token (`Thread.token`) is touched — see `Release.keeps_token` in `Props/C08.lean`.
 -/
 import LoomVerif.Proofs.SyncExamples
+import LoomVerif.Proofs.C07Try
 
 namespace LoomVerif
 open C12 Sy C07
@@ -66,7 +73,8 @@ theorem Table.read_objs (os : List Obj) (o j : Nat) (x y : Obj) (h : os[o]? = so
 /-- `Mutex::post_acquire` on mutex `m` (object `o`) returns `m.lock.isNone`.  Held: nothing
 changes.  Free: the mutex is now held by the active thread, the active thread acquires the mutex's
 clock (`causality := causality ⊔ m.sync.hb`), every OTHER thread whose pending operation is on `o`
-is `blocked`; all remaining threads, all other objects, and everything else are unchanged. -/
+AND waits for it (`op.blocking`: a `lock`, not a `try_lock` — repair of finding F9) is `blocked`; all
+remaining threads, all other objects, and everything else are unchanged. -/
 theorem Lock.try_exact (w : World) (o : Nat) (m : MutexSt)
     (h : w.exec.objs[o]? = some (.mutex m)) :
     ∃ w', w.postAcquire o = .ok (w', m.lock.isNone) ∧
@@ -77,7 +85,7 @@ theorem Lock.try_exact (w : World) (o : Nat) (m : MutexSt)
             threads := { w.exec.threads with threads :=
               (w.exec.threads.threads.mapIdx fun i th =>
                 if i = w.tid then { th with causality := th.causality.join m.sync.hb }
-                else if th.operation.any (fun op => op.obj == o) then th.setBlocked
+                else if th.operation.any (fun op => op.obj == o && op.blocking) then th.setBlocked
                 else th) } } }) := by
   cases hl : m.lock with
   | some t =>
@@ -103,7 +111,7 @@ at THAT instant, otherwise completes holding the mutex. -/
 theorem Lock.lock_stages (w : World) (c : TCtl) (mi : Nat) (m : MutexSt)
     (h : w.exec.objs[w.mutexObj mi]? = some (.mutex m)) :
     (c.stage = 0 → w.runOp c (.lock mi) =
-      (w.setStage 1).branch (w.mutexObj mi) .opaque (block := m.lock.isSome)) ∧
+      (w.setStage 1).branch (w.mutexObj mi) .opaque (block := m.lock.isSome) (wait := true)) ∧
     (c.stage ≠ 0 →
       (w.runOp c (.lock mi) = .error .expectedLock ↔ m.lock.isSome = true) ∧
       (m.lock = none → ∃ w1, w.postAcquire (w.mutexObj mi) = .ok (w1, true) ∧
@@ -132,7 +140,7 @@ theorem readersOf_spelled_out :
 
 /-- `post_acquire_read_lock` succeeds iff the lock is not write-locked.  On success the active
 thread joins the reader set (sorted insert), acquires the lock's clock, and every other thread with
-a pending WRITE on the lock is blocked (pending readers are not). -/
+a pending WRITE on the lock that waits (`write`, not `try_write`) is blocked (pending readers are not). -/
 theorem RwLock.try_exact_read (w : World) (o : Nat) (s : RwSt)
     (h : w.exec.objs[o]? = some (.rwlock s)) :
     ∃ w', w.postAcquireRead o = .ok (w', (writerOf s.lock).isNone) ∧
@@ -144,7 +152,7 @@ theorem RwLock.try_exact_read (w : World) (o : Nat) (s : RwSt)
             threads := { w.exec.threads with threads :=
               (w.exec.threads.threads.mapIdx fun i th =>
                 if i = w.tid then { th with causality := th.causality.join s.sync.hb }
-                else if th.operation.any (fun op => op.obj == o && op.action == .rwWrite)
+                else if th.operation.any (fun op => op.obj == o && op.action == .rwWrite && op.blocking)
                 then th.setBlocked else th) } } }) := by
   cases hl : writerOf s.lock with
   | some t =>
@@ -157,7 +165,7 @@ theorem RwLock.try_exact_read (w : World) (o : Nat) (s : RwSt)
 
 /-- `post_acquire_write_lock` succeeds iff the lock is unlocked (no writer AND no reader).  On
 success the active thread is the writer, acquires the lock's clock, and every other thread with a
-pending operation on the lock is blocked. -/
+pending operation on the lock that waits (`read`, `write`; not `try_read`, `try_write`) is blocked. -/
 theorem RwLock.try_exact_write (w : World) (o : Nat) (s : RwSt)
     (h : w.exec.objs[o]? = some (.rwlock s)) :
     ∃ w', w.postAcquireWrite o = .ok (w', s.lock.isNone) ∧
@@ -168,7 +176,7 @@ theorem RwLock.try_exact_write (w : World) (o : Nat) (s : RwSt)
             threads := { w.exec.threads with threads :=
               (w.exec.threads.threads.mapIdx fun i th =>
                 if i = w.tid then { th with causality := th.causality.join s.sync.hb }
-                else if th.operation.any (fun op => op.obj == o) then th.setBlocked
+                else if th.operation.any (fun op => op.obj == o && op.blocking) then th.setBlocked
                 else th) } } }) := by
   cases hl : s.lock with
   | some t =>
@@ -472,7 +480,7 @@ theorem Lock.sim_lock {w : World} {c : TCtl} {mi : Nat} {m : MutexSt} {p : Prog}
     SC.enabled p s (bodyOf w w.tid) = (s.mutex.getD mi none).isNone ∧
     (c.stage = 0 → w.runOp c (.lock mi) =
       (w.setStage 1).branch (w.mutexObj mi) .opaque
-        (block := !(SC.enabled p s (bodyOf w w.tid)))) ∧
+        (block := !(SC.enabled p s (bodyOf w w.tid))) (wait := true)) ∧
     (c.stage ≠ 0 →
       ((s.mutex.getD mi none).isNone = false → w.runOp c (.lock mi) = .error .expectedLock) ∧
       ((s.mutex.getD mi none).isNone = true →
@@ -538,10 +546,10 @@ theorem RwLock.sim_blocking {w : World} {c : TCtl} {li : Nat} {st : RwSt} {p : P
     (hcv : (s.th (bodyOf w w.tid)).cvNotified = none) :
     (SC.opOf p s (bodyOf w w.tid) = some (.read li) →
       w.runOp c (.read li) = (w.setStage 1).branch (w.rwObj li) .rwRead
-        (block := !(SC.enabled p s (bodyOf w w.tid)))) ∧
+        (block := !(SC.enabled p s (bodyOf w w.tid))) (wait := true)) ∧
     (SC.opOf p s (bodyOf w w.tid) = some (.write li) →
       w.runOp c (.write li) = (w.setStage 1).branch (w.rwObj li) .rwWrite
-        (block := !(SC.enabled p s (bodyOf w w.tid)))) :=
+        (block := !(SC.enabled p s (bodyOf w w.tid))) (wait := true)) :=
   ⟨fun hop => read_block_iff_disabled h hs hrel hv hst hfin hw hcv hop,
     fun hop => write_block_iff_disabled h hs hwf hrel hv hst hfin hw hcv hop⟩
 
@@ -563,28 +571,105 @@ theorem RwLock.sim_release {w : World} {c : TCtl} {li : Nat} {st : RwSt} {p : Pr
   ⟨fun hnr hrel hli hcv hop => unwrite_sim h hnr hrel hli hcv hop,
     fun _ hwf hr => unread_erase h hwf hr⟩
 
-/-! ## 6. the refuted full wake-exactness: finding F9 -/
+/-! ## 6. wake-exactness of the acquisitions: finding F9, repaired -/
 
-/-- `Lock.blocks_try_acquirers` (finding F9).  `try_lock` and `lock` leave the same pending
-operation record (`branch (mutexObj mi) .opaque`), and `post_acquire` blocks EVERY other thread
-with a pending operation on the mutex.  Concretely, in the two-thread state `Ex.wF9` thread 1 is
-runnable with a pending `try_lock`, thread 0's `try_lock` then succeeds (result `1`) and thread 1
-is set `blocked` — although in the corresponding state of the reference semantics (`Ex.sF9`, mutex
-held by thread 0) thread 1, being at a `try_lock`, is enabled. -/
-theorem Lock.blocks_try_acquirers :
-    (∀ (w : World) (c : TCtl) (mi : Nat), c.stage = 0 →
-      w.runOp c (.tryLock mi) = (w.setStage 1).branch (w.mutexObj mi) .opaque) ∧
+theorem NotWaiting_spelled_out (th : Thread) :
+    NotWaiting th ↔ ∀ op, th.operation = some op → op.blocking = false := Iff.rfl
+
+/-- `Lock.never_blocks_try_acquirers` (finding F9, repaired).  In ANY world, for ANY of the three acquisitions
+(`Mutex::post_acquire`, `post_acquire_read_lock`, `post_acquire_write_lock`) on ANY object, whatever the
+outcome: a thread other than the caller that is NOT WAITING — it has no pending operation, or its pending
+operation is an attempt (`blocking = false`: `try_lock`, `try_read`, `try_write`, or any operation of another
+kind) — keeps its WHOLE entry (state, token, clocks, …): it is never blocked.  The exact table, for every other
+thread: it is `set_blocked` iff the acquisition succeeded and its pending operation names the object and waits
+(for a read acquisition: and is a write). -/
+theorem Lock.never_blocks_try_acquirers (w w' : World) (o : Nat) (b : Bool) (i : Nat) (hi : i ≠ w.tid) :
+    (NotWaiting (w.ths.get i) →
+      (w.postAcquire o = .ok (w', b) → w'.ths.get i = w.ths.get i) ∧
+      (w.postAcquireRead o = .ok (w', b) → w'.ths.get i = w.ths.get i) ∧
+      (w.postAcquireWrite o = .ok (w', b) → w'.ths.get i = w.ths.get i)) ∧
+    (w.postAcquire o = .ok (w', b) → w'.ths.get i =
+      if b && (w.ths.get i).operation.any (fun op => op.obj == o && op.blocking)
+      then (w.ths.get i).setBlocked else w.ths.get i) ∧
+    (w.postAcquireRead o = .ok (w', b) → w'.ths.get i =
+      if b && (w.ths.get i).operation.any (fun op => op.obj == o && op.action == .rwWrite && op.blocking)
+      then (w.ths.get i).setBlocked else w.ths.get i) ∧
+    (w.postAcquireWrite o = .ok (w', b) → w'.ths.get i =
+      if b && (w.ths.get i).operation.any (fun op => op.obj == o && op.blocking)
+      then (w.ths.get i).setBlocked else w.ths.get i) :=
+  ⟨fun hn => try_never_blocked hi hn, fun h => postAcquire_get h i hi,
+    fun h => postAcquireRead_get h i hi, fun h => postAcquireWrite_get h i hi⟩
+
+/-- … and a thread that WAITS for the lock (`blocking = true`) is blocked by a successful acquisition: by
+`post_acquire` and `post_acquire_write_lock` always, by `post_acquire_read_lock` iff it waits to WRITE (waiting
+readers coexist with the new reader). -/
+theorem Lock.blocks_waiters (w w' : World) (o : Nat) (i : Nat) (op : Operation) (hi : i ≠ w.tid)
+    (hop : (w.ths.get i).operation = some op) (ho : op.obj = o) (hb : op.blocking = true) :
+    (w.postAcquire o = .ok (w', true) → w'.ths.get i = (w.ths.get i).setBlocked) ∧
+    (w.postAcquireWrite o = .ok (w', true) → w'.ths.get i = (w.ths.get i).setBlocked) ∧
+    (op.action = .rwWrite → w.postAcquireRead o = .ok (w', true) →
+      w'.ths.get i = (w.ths.get i).setBlocked) ∧
+    (op.action ≠ .rwWrite → w.postAcquireRead o = .ok (w', true) → w'.ths.get i = w.ths.get i) :=
+  waiter_blocked hi hop ho hb
+
+/-- What the branch points record.  `World.branch obj act blk wt` leaves `⟨obj, act, wt⟩` as the caller's
+pending operation (`Exec.schedule` never touches the field) and nobody else's pending operation changes; the
+first stage of `try_lock` / `try_read` / `try_write` branches with `wt = false`, that of `lock` / `read` /
+`write` with `wt = true` (whether or not it blocks). -/
+theorem Lock.branch_records :
+    (∀ (w w' : World) (obj : Nat) (act : Action) (blk wt : Bool), w.branch obj act blk wt = .ok w' →
+      (w.tid < w.ths.threads.length → (w'.ths.get w.tid).operation = some ⟨obj, act, wt⟩) ∧
+      (∀ i, i ≠ w.tid → (w'.ths.get i).operation = (w.ths.get i).operation)) ∧
+    (∀ (w : World) (c : TCtl) (i : Nat), c.stage = 0 →
+      w.runOp c (.tryLock i) = (w.setStage 1).branch (w.mutexObj i) .opaque false false ∧
+      w.runOp c (.tryRead i) = (w.setStage 1).branch (w.rwObj i) .rwRead false false ∧
+      w.runOp c (.tryWrite i) = (w.setStage 1).branch (w.rwObj i) .rwWrite false false ∧
+      (∀ m, w.exec.objs[w.mutexObj i]? = some (.mutex m) →
+        w.runOp c (.lock i) = (w.setStage 1).branch (w.mutexObj i) .opaque m.lock.isSome true) ∧
+      (∀ s, w.exec.objs[w.rwObj i]? = some (.rwlock s) →
+        w.runOp c (.read i) = (w.setStage 1).branch (w.rwObj i) .rwRead
+          (match s.lock with | some (.write _) => true | _ => false) true ∧
+        w.runOp c (.write i) = (w.setStage 1).branch (w.rwObj i) .rwWrite s.lock.isSome true)) := by
+  refine ⟨fun w w' obj act blk wt h => C07.branch_records h, fun w c i hs => ⟨?_, ?_, ?_, ?_, ?_⟩⟩
+  · rw [runOp_tryLock]; simp [hs]
+  · rw [runOp_tryRead]; simp [hs]
+  · rw [runOp_tryWrite]; simp [hs]
+  · intro m h
+    rw [runOp_lock]; simp only [hs, getMutex_of h, bind, Except.bind]; rfl
+  · intro s h
+    constructor
+    · rw [runOp_read]; simp only [hs, getRw_of h, bind, Except.bind]; rfl
+    · rw [runOp_write]; simp only [hs, getRw_of h, bind, Except.bind]; rfl
+
+/-- Finding F9, repaired, concretely (kernel-checked; the refuted form was `Lock.blocks_try_acquirers`).
+`Ex.wF9s`: the first stage of `try_lock` records `⟨mutex, opaque, false⟩`, that of `lock`
+`⟨mutex, opaque, true⟩`.  `Ex.wF9`: thread 1 is runnable with a pending `try_lock`; thread 0's `try_lock` then
+succeeds (result `1`) and thread 1 STAYS `runnable` — its whole entry is unchanged — exactly as in the
+corresponding state of the reference semantics (`Ex.sF9`, mutex held by thread 0), where thread 1, being at a
+`try_lock`, is enabled; scheduled, its own `try_lock` returns `0` while thread 0 holds the mutex (`Ex.wF9run`).
+`Ex.wF9w`: the same state with thread 1 waiting in `lock`: the acquisition blocks it. -/
+theorem Lock.try_acquirer_keeps_running :
+    ((Ex.wF9s.runOp { body := 1 } (.tryLock 0)).toOption.map (fun w' => (w'.ths.get 1).operation) =
+        some (some ⟨0, .opaque, false⟩) ∧
+      (Ex.wF9s.runOp { body := 1 } (.lock 0)).toOption.map (fun w' => (w'.ths.get 1).operation) =
+        some (some ⟨0, .opaque, true⟩)) ∧
     ((Ex.wF9.ths.get 1).state = .runnable ∧
-      (Ex.wF9.ths.get 1).operation = some ⟨Ex.wF9.mutexObj 0, .opaque⟩) ∧
+      (Ex.wF9.ths.get 1).operation = some ⟨Ex.wF9.mutexObj 0, .opaque, false⟩) ∧
     (Ex.wF9.runOp { stage := 1 } (.tryLock 0)).toOption.map
-      (fun w' => ((w'.ths.get 1).state, w'.events.head?.map (·.ret))) =
-      some (.blocked, some (.val 1)) ∧
+      (fun w' => ((w'.ths.get 1).state, decide (w'.ths.get 1 = Ex.wF9.ths.get 1),
+        w'.events.head?.map (·.ret))) =
+      some (.runnable, true, some (.val 1)) ∧
+    Ex.wF9run.toOption.map (fun w' => (w'.events.head?.map (·.ret),
+      (w'.getMutex 0).toOption.map (·.lock), (w'.ths.get 1).state)) =
+      some (some (.val 0), some (some 0), .runnable) ∧
     (SC.enabled Ex.wF9.prog Ex.sF9 1 = true ∧
       SC.opOf Ex.wF9.prog Ex.sF9 1 = some (.tryLock 0) ∧
-      Ex.sF9.mutex = [some 0]) := by
-  refine ⟨?_, Ex.F9_before, Ex.F9_after, Ex.F9_reference.1, Ex.F9_reference.2, rfl⟩
-  intro w c mi hs
-  rw [runOp_tryLock]; simp [hs]
+      Ex.sF9.mutex = [some 0]) ∧
+    (Ex.wF9w.runOp { stage := 1 } (.tryLock 0)).toOption.map
+      (fun w' => ((w'.ths.get 1).state, (w'.ths.get 1).parked, w'.events.head?.map (·.ret))) =
+      some (.blocked, false, some (.val 1)) :=
+  ⟨Ex.F9_records, Ex.F9_before, Ex.F9_after, Ex.F9_later_try_fails,
+    ⟨Ex.F9_reference.1, Ex.F9_reference.2, rfl⟩, Ex.F9_waiter_blocked⟩
 
 /-- the reference semantics never disables a `try_lock` (in any state in which the thread can run
 at all) -/
